@@ -2,7 +2,7 @@
 """seedtest.py <seed id> <check id> [...]: apply seeded/<seed>/patch.diff to /repo, run the quick checks, always revert."""
 import subprocess, sys, os
 seed = sys.argv[1]
-checks = sys.argv[2:] or [seed]
+checks = sys.argv[2:] or [seed[:3]]
 patch = "/verif/seeded/%s/patch.diff" % seed
 assert subprocess.run(["git", "-C", "/repo", "status", "--porcelain", "--untracked-files=no"], capture_output=True, text=True).stdout.strip() == "", "repo dirty"
 subprocess.run(["git", "-C", "/repo", "apply", patch], check=True)
